@@ -29,17 +29,22 @@
 (*                                                                         *)
 (* Three families of inputs:                                               *)
 (*   hist   a suite without contents that lists a sequence of cases, each  *)
-(*          of a kind (mutation, ending): cases that change a setting      *)
-(*          (env of both / one set, unset, ${} expansion, cd, timeout,     *)
-(*          def, files in act/ and tmp/, stdin, [conf] status and actor)   *)
-(*          and observe before and after; every case is an observer        *)
+(*          of a kind (mutation, ending): cases that change a setting in   *)
+(*          [setup] (env of both / one set, unset, ${} expansion, cd,      *)
+(*          timeout, def, files in act/ and tmp/, stdin), in [conf]        *)
+(*          (status, actor) or in a later phase (env, def, cd, timeout),   *)
+(*          cases that cannot be executed (syntax error, undefined symbol, *)
+(*          SKIP), and that end in PASS, FAIL or HARD_ERROR ([setup],      *)
+(*          [act], [cleanup]); every case observes at its start, after its *)
+(*          change, and in its action to check                             *)
 (*   merge  a root suite with contents in the phases s0 that lists case 1, *)
 (*          and a sub-suite with contents in the phases s1 that lists case *)
 (*          2; both cases have contents in the phases cs; every            *)
 (*          instruction is a probe; [conf] of a suite sets actor, status   *)
-(*          and the preprocessor                                           *)
+(*          and the preprocessor, [conf] of a case the status              *)
 (*   sds    a suite whose instructions have values that depend on the      *)
 (*          sandbox of the running case, listing n cases                   *)
+(* (family "file": histories read from a file - seeded random ones)        *)
 (***************************************************************************)
 EXTENDS Naturals, Sequences, FiniteSets, TLC, Json, IOUtils
 
